@@ -36,6 +36,7 @@ Inductive shape :=
 | Refuse                      (* no call of the base with any parameter; returns errors built from the caller's own strings *)
 | Const                       (* returns a constant *)
 | Translation                 (* one of the translation functions themselves / constructors: modelled by hand (BasePath.v) *)
+| Guarded (pred : string)     (* FromBasePath / fromBasePath: a translation function whose body starts with `if !pred(path) {panic | return path}` *)
 | Unknown (why : string).
 
 Record method := {
@@ -124,6 +125,7 @@ Definition method_ok (fns : list (string * bool)) (all : list (string * string))
   | Refuse => true
   | Const => true
   | Translation => true
+  | Guarded _ => true
   | Unknown _ => false
   end.
 
@@ -158,8 +160,22 @@ Definition root_guard_ok (m : method) : bool :=
     end
   else true.
 
+(* the lenient fromBasePath returns its argument unchanged exactly where the strict FromBasePath panics:
+   both are present with a recognised leading guard, on the same predicate *)
+Definition guard_pred (ms : list method) (name : string) : option string :=
+  match filter (fun m => String.eqb (m_recv m) "BasePathFS" && String.eqb (m_name m) name) ms with
+  | m :: _ => match m_shape m with Guarded p => Some p | _ => None end
+  | [] => None
+  end.
+
+Definition guards_consistent (ms : list method) : bool :=
+  match guard_pred ms "FromBasePath", guard_pred ms "fromBasePath" with
+  | Some p, Some q => String.eqb p q
+  | _, _ => false
+  end.
+
 Definition table_complete (ms : list method) : bool :=
-  forallb root_guard_ok ms &&
+  guards_consistent ms && forallb root_guard_ok ms &&
   forallb (has_method ms "BasePathFS") required_vfs_methods
   && forallb (has_method ms "BasePathFile") required_file_methods.
 
@@ -201,7 +217,7 @@ Qed.
 
 Theorem method_ok_forwards_safely fns all m : method_ok fns all m = true -> forwards_safely m.
 Proof.
-  unfold method_ok, forwards_safely. destruct (m_shape m) as [bm args rets| | | | | |]; auto.
+  unfold method_ok, forwards_safely. destruct (m_shape m) as [bm args rets| | | | | | |]; auto.
   intros H. apply andb_prop in H as [H Hr]. apply andb_prop in H as [_ Ha]. split.
   - intros p Hin. rewrite forallb_forall in Ha. specialize (Ha _ Hin). cbn [arg_ok] in Ha.
     apply existsb_triple_in. exact Ha.
